@@ -117,7 +117,17 @@ def history_queries(backend: str) -> List[str]:
             f"Select({{ds}}, lambda e: e.{coll}('A').Select(lambda j: j.scaledPt(2.0)))",
             f"Select({{ds}}, lambda e: e.{coll}('A').Select(lambda j: DeltaR(j.eta(), j.phi(), 0.5, 0.25)))",
             f"Select({{ds}}, lambda e: e.{coll}('A').Select(lambda j: j.nMember))",
-            f"Select({{ds}}, lambda e: e.{coll}('A').Select(lambda j: j.other().nMember + j.nMember))"]
+            f"Select({{ds}}, lambda e: e.{coll}('A').Select(lambda j: j.other().nMember + j.nMember))",
+            # very long chains: whatever the interpreter's limits make of them, it is the same for the next query
+            deep_chain(coll, 120), deep_chain(coll, 260)]
+
+
+def deep_chain(coll: str, n: int, ds: str = "{ds}") -> str:
+    "a chain of n Where steps in front of a Count: the depth of the query is n"
+    q = f"Select({ds}, lambda e: e.{coll}('A'))"
+    for k in range(n):
+        q = f"Where({q}, lambda c{k}: c{k}.Count() >= 0)" if k % 2 == 0 else f"Select({q}, lambda c{k}: c{k})"
+    return f"Select({q}, lambda cz: cz.Count())"
 
 
 UNSUPPORTED = ["Select({ds}, lambda e: e.%s('A').Select(lambda j: j.pt() // 2))", "Select({ds}, lambda e: e.%s('A').Select(lambda j: 1 < j.pt() < 2))",
@@ -155,6 +165,7 @@ def probes(backend: str) -> List[Tuple[str, str]]:
          ("declared_function_same_name_other_code", f"Select(MetaData(ds, {{'metadata_type': 'add_cpp_function', 'name': 'MyFunc', 'include_files': ['mine2.h'], 'arguments': ['y'], 'code': ['auto result = y * 3;'], 'return_type': 'float'}}), lambda e: e.{coll}('A').Select(lambda j: MyFunc(j.eta())))"),
          ("undeclared_member", f"Select(ds, lambda e: e.{coll}('A').Select(lambda j: j.nMember))"),
          ("declared_member_inline", f"Select(MetaData(ds, {{'metadata_type': 'add_method_type_info', 'type_string': '{cls}', 'method_name': 'nMember', 'return_type': 'int'}}), lambda e: e.{coll}('A').Select(lambda j: j.nMember))"),
+         ("deep_chain_200", deep_chain(coll, 200, "ds")), ("deep_chain_450", deep_chain(coll, 450, "ds")),
          ("docker_md_unknown", f"Select(MetaData(ds, {{'metadata_type': 'docker', 'image': 'x:y'}}), lambda e: e.{coll}('A').Count())"),
          ("job_script_self", "Select(MetaData(ds, {'metadata_type': 'add_job_script', 'name': 'js2', 'script': [\"print('js2')\"], 'depends_on': ['js1']}), lambda e: e.%s('A').Count())" % coll)]
     return P
@@ -167,7 +178,7 @@ SENSITIVE = {"method_int": ("undeclared_method", "declared_inline"), "method_vec
              "enum2": ("undeclared_enum2",), "collection": ("undeclared_collection",), "function": ("undeclared_function", "declared_function_same_name_other_code", "builtin_function", "declared_function_inline"),
              "function2": ("undeclared_function2", "builtin_function", "declared_function_inline", "undeclared_function"), "method_function": ("undeclared_method_function", "builtin_function", "declared_function_inline"),
              "member_int": ("undeclared_member", "declared_member_inline"), "job_script": ("job_script_self", "plain"), "job_script_dep": ("job_script_self", "plain"), "inject": ("plain", "builtin_function"),
-             "docker": ("docker_md_unknown", "plain"), "same_ast_object": ("declared_inline", "plain", "pt_default", "job_script_self", "constants_a", "default_typed_method")}
+             "docker": ("docker_md_unknown", "plain"), "deep": ("deep_chain_200", "deep_chain_450"), "same_ast_object": ("declared_inline", "plain", "pt_default", "job_script_self", "constants_a", "default_typed_method")}
 
 
 def gen_history(R: random.Random, maxlen: int, inject: bool) -> List[Dict[str, Any]]:
@@ -180,6 +191,8 @@ def gen_history(R: random.Random, maxlen: int, inject: bool) -> List[Dict[str, A
         md = [m for k in kinds for m in pool[k]]
         R.shuffle(md)
         q = R.choice(history_queries(backend))
+        if "lambda c100:" in q:
+            kinds = kinds + ["deep"]
         for word, kind in (("OtherFunc", "function2"), ("scaledPt", "method_function"), ("MyFunc", "function")):
             if word in q and kind not in kinds and R.random() < 0.8:
                 kinds = kinds + [kind]
@@ -190,7 +203,8 @@ def gen_history(R: random.Random, maxlen: int, inject: bool) -> List[Dict[str, A
         if "xAOD.Jet.Color" in q and R.random() < 0.7 and "enum" not in kinds:
             kinds = kinds + ["enum"]   # a query that really USES an enum value (declaring one is not the same as resolving it)
             md = md + pool["enum"]
-        outcome = R.choice(["ok", "ok", "ok", "bad_md_last", "unsupported", "no_outdir"] + (["inject_exc"] if inject else []))
+        # "interrupt": the translation is abandoned by a KeyboardInterrupt (Ctrl-C in a notebook: the process lives on and serves the next query)
+        outcome = R.choice(["ok", "ok", "ok", "bad_md_last", "unsupported", "no_outdir", "interrupt"] + (["inject_exc"] if inject else []))
         if outcome == "bad_md_last":
             md = md + [R.choice(BAD_MD)]  # outermost MetaData is processed first: put the bad one innermost so earlier ones are registered
         if outcome == "unsupported":
@@ -268,7 +282,7 @@ def worker(args: Dict[str, Any]) -> Dict[str, Any]:
             exe.add_extended_md({"docker": DockerImageSpecification("base/image:0")})
         q = st["query"] if st.get("share_ast") else attach(st["query"], st["md"])
         tool_id = None
-        if st["outcome"] == "inject_exc" and hasattr(sys, "monitoring"):
+        if st["outcome"] in ("inject_exc", "interrupt") and hasattr(sys, "monitoring"):
             # source-free failpoint: raise at the k-th executed line of executor.py / meta_data.py
             mon = sys.monitoring
             tool_id = 3
@@ -282,6 +296,8 @@ def worker(args: Dict[str, Any]) -> Dict[str, Any]:
                     if code.co_filename.endswith(("common/executor.py", "common/meta_data.py")) and code.co_name not in ("reset", "apply_ast_transformations", "write_cpp_files"):
                         budget[0] -= 1
                         if budget[0] == 0:
+                            if st["outcome"] == "interrupt":
+                                raise KeyboardInterrupt(f"injected at {Path(code.co_filename).name}:{line}")
                             raise _Injected(f"injected at {Path(code.co_filename).name}:{line}")
                     return None
                 mon.register_callback(tool_id, mon.events.LINE, on_line)
@@ -293,6 +309,11 @@ def worker(args: Dict[str, Any]) -> Dict[str, Any]:
             sys.monitoring.set_events(tool_id, 0)
             sys.monitoring.free_tool_id(tool_id)
         snap = snapshot(executors)
+        if st.get("extended_md"):
+            # The prototype was registered by the CALLER (this harness, as LocalDataset does it: on an executor made for that one
+            # query). What it leaves on that executor is the caller's own doing, not something an earlier query declared: the
+            # executor is not used again.
+            executors.pop(key, None)
         leaked = {k: v for k, v in snap.items() if k != "executors" and v != base_snap.get(k)}
         exleak = {k: v for k, v in snap["executors"].items() if v["job_option_blocks"] or v["extended_md"]}
         trace.append({"step": i, "status": r["status"], "exc": r.get("type"), "global_state_after": leaked, "executor_state_after": exleak})
